@@ -3,4 +3,4 @@ Require Extraction.
 Require Import ExtrOcamlBasic.
 
 Extraction "model.ml" keep toy_roundtrip toy_wrun toy_feed_all toy_reader0 cut op_wf safe_overrides all_fit peer_cfg
-  expect_all encode_header write_frame toy_comp toy_decomp2 toy_cinit xor_mask toy_crun_trace toy_frun_trace qrun_trace qinit.
+  expect_all encode_header write_frame toy_comp toy_decomp2 toy_cinit xor_mask toy_crun_trace toy_frun_trace qrun_trace qinit flrun flinit.
